@@ -26,9 +26,12 @@
     [C14_context_eq_iff_triples] state the two round trips and "equal exactly when the triples are
     equal" on the model.
 
+    shape and fill_ratio (last part of this file, Model/Stats.v, Proofs/Stats.v): [C14_shape_fill_ratio_agree],
+    [C14_shape_fill_ratio_agree_back]; the fraction is in lowest terms and counts exactly the true cells.
+
     NOT modelled here.
-    - shape, fill_ratio, the table string and crc32 are functions of the triple; their agreement
-      between a context and its definition is checked by the harness on the real objects, not modelled. *)
+    - the table string and crc32 are functions of the triple (the table text is Model/Formats.v of C12); their agreement
+      between a context and its definition is checked by the harness on the real objects. *)
 From Coq Require Import ZArith List Bool.
 From Concepts Require Import Base.Res Model.Definition Spec.DefSpec
   Proofs.DefUnique Proofs.Definition Proofs.DefFacts Proofs.DefOrder Proofs.AssembleDef.
@@ -379,3 +382,124 @@ Example C14_context_definition_witness :
     obs_defn d = (objs, props, context_bools c) /\
     context_init (objects_of d) (properties_of d) (map (map VBool) (bools_of d)) = Ok (objs, props, c).
 Proof. exact context_definition_witness. Qed.
+
+(** * shape and fill_ratio agree between a context and its definition
+
+    (Model/Stats.v, Proofs/Stats.v.  This section supersedes, for shape and fill_ratio, the "NOT modelled here"
+    note of the header: only the table string and crc32 remain harness-only.)
+    [fraction n d] is fractions.Fraction(n, d) of two non-negative ints ([None] = ZeroDivisionError);
+    Definition.fill_ratio = Fraction(len(_pairs), objects * properties),
+    Context.fill_ratio = Fraction(sum of the popcounts of the row integers, objects * properties);
+    [n_true] is the number of true cells of a boolean table. *)
+From Concepts Require Import Spec.Transform Model.Lattice Model.Stats Proofs.Stats.
+
+(** Fraction(n, d) is the pair in lowest terms denoting n / d *)
+Theorem C14_fraction_lowest_terms : forall n d,
+  (0 <= n)%Z -> (0 < d)%Z ->
+  exists a b, fraction n d = Some (a, b) /\ (0 < b)%Z /\ Z.gcd a b = 1%Z /\ (a * d = n * b)%Z /\ (0 <= a)%Z.
+Proof. exact fraction_spec. Qed.
+Print Assumptions C14_fraction_lowest_terms.
+
+Theorem C14_fraction_zero_denominator : forall n, fraction n 0 = None.
+Proof. exact fraction_zero. Qed.
+Print Assumptions C14_fraction_zero_denominator.
+
+Theorem C14_fraction_at_most_one : forall n d,
+  (0 <= n <= d)%Z -> (0 < d)%Z ->
+  exists a b, fraction n d = Some (a, b) /\ (0 < b)%Z /\ Z.gcd a b = 1%Z /\ (a * d = n * b)%Z /\ (0 <= a)%Z /\ (a <= b)%Z.
+Proof. exact fraction_le. Qed.
+Print Assumptions C14_fraction_at_most_one.
+
+(** equal rationals have the same lowest terms: the result depends only on the value n / d *)
+Theorem C14_fraction_unique : forall n d n' d',
+  (0 < d)%Z -> (0 < d')%Z -> (0 <= n)%Z -> (0 <= n')%Z -> (n * d' = n' * d)%Z -> fraction n d = fraction n' d'.
+Proof. exact fraction_unique. Qed.
+Print Assumptions C14_fraction_unique.
+
+(** the pair set has exactly one element per true cell *)
+Theorem C14_definition_pairs_count_true_cells : forall d,
+  Inv d -> length (d_pairs d) = n_true (bools_of d).
+Proof. exact def_pairs_count. Qed.
+Print Assumptions C14_definition_pairs_count_true_cells.
+
+Theorem C14_definition_fill_ratio_counts_true_cells : forall d,
+  Inv d ->
+  def_fill_ratio d = fraction (Z.of_nat (n_true (bools_of d)))
+                              (Z.of_nat (length (objects_of d) * length (properties_of d))%nat).
+Proof. exact def_fill_ratio_bools. Qed.
+Print Assumptions C14_definition_fill_ratio_counts_true_cells.
+
+(** the popcounts of the row integers add up to the number of true cells *)
+Theorem C14_context_rows_count_true_cells : forall c,
+  wf_ctx c -> fold_right (fun r acc => (count r + acc)%nat) 0%nat (rows c) = n_true (context_bools c).
+Proof. exact ctx_rows_count. Qed.
+Print Assumptions C14_context_rows_count_true_cells.
+
+Theorem C14_context_fill_ratio_counts_true_cells : forall c,
+  wf_ctx c ->
+  ctx_fill_ratio c = fraction (Z.of_nat (n_true (context_bools c))) (Z.of_nat (nG c * nM c)%nat).
+Proof. exact ctx_fill_ratio_bools. Qed.
+Print Assumptions C14_context_fill_ratio_counts_true_cells.
+
+(** Context( *definition): same shape, same fill_ratio *)
+Theorem C14_shape_fill_ratio_agree : forall d o p c,
+  Inv d ->
+  context_init (objects_of d) (properties_of d) (map (map VBool) (bools_of d)) = Ok (o, p, c) ->
+  ctx_shape c = def_shape d /\ ctx_fill_ratio c = def_fill_ratio d.
+Proof. exact definition_context_stats. Qed.
+Print Assumptions C14_shape_fill_ratio_agree.
+
+(** context.definition(): same shape, same fill_ratio *)
+Theorem C14_shape_fill_ratio_agree_back : forall objs props bools o p c d,
+  context_init objs props bools = Ok (o, p, c) ->
+  d_init o p (context_bools c) = Ok d ->
+  def_shape d = ctx_shape c /\ def_fill_ratio d = ctx_fill_ratio c.
+Proof. exact context_definition_stats. Qed.
+Print Assumptions C14_shape_fill_ratio_agree_back.
+
+(** an empty Definition has no fill_ratio (ZeroDivisionError) ... *)
+Theorem C14_fill_ratio_empty_definition : forall d,
+  objects_of d = [] \/ properties_of d = [] -> def_fill_ratio d = None.
+Proof. exact def_fill_ratio_empty. Qed.
+Print Assumptions C14_fill_ratio_empty_definition.
+
+(** ... a Context always has one, between 0 and 1, in lowest terms *)
+Theorem C14_fill_ratio_context_defined : forall c,
+  wf_ctx c -> (0 < nG c)%nat -> (0 < nM c)%nat ->
+  exists a b, ctx_fill_ratio c = Some (a, b) /\ (0 <= a <= b)%Z /\ Z.gcd a b = 1%Z.
+Proof. exact ctx_fill_ratio_some. Qed.
+Print Assumptions C14_fill_ratio_context_defined.
+
+(** ... namely (true cells) / (objects * properties) *)
+Theorem C14_fill_ratio_context_value : forall c,
+  wf_ctx c -> (0 < nG c)%nat -> (0 < nM c)%nat ->
+  exists a b, ctx_fill_ratio c = Some (a, b) /\ (0 <= a <= b)%Z /\ (0 < b)%Z /\ Z.gcd a b = 1%Z /\
+              (a * Z.of_nat (nG c * nM c)%nat = Z.of_nat (n_true (context_bools c)) * b)%Z.
+Proof. exact ctx_fill_ratio_value. Qed.
+Print Assumptions C14_fill_ratio_context_value.
+
+(** fill_ratio is invariant under the transformations of property C15 (Spec/Transform.v) *)
+Theorem C14_fill_ratio_transpose : forall c,
+  wf_ctx c -> ctx_fill_ratio (transpose c) = ctx_fill_ratio c.
+Proof. exact ctx_fill_ratio_transpose. Qed.
+Print Assumptions C14_fill_ratio_transpose.
+
+Theorem C14_fill_ratio_permutation : forall c s sinv t tinv,
+  bijection_on (nG c) s sinv -> bijection_on (nM c) t tinv -> wf_ctx c ->
+  ctx_fill_ratio (perm_ctx c sinv tinv) = ctx_fill_ratio c.
+Proof. exact ctx_fill_ratio_perm. Qed.
+Print Assumptions C14_fill_ratio_permutation.
+
+(** witness: a 2x3 table with 4 true cells has fill ratio 2/3 on both sides (and transposed) *)
+Example C14_fill_ratio_witness :
+  let objs := [0; 1]%nat in let props := [10; 11; 12]%nat in
+  let bools := [[true; false; true]; [true; true; false]] in
+  exists d c,
+    d_init objs props bools = Ok d /\ bools_of d = bools /\
+    def_shape d = (2, 3)%nat /\ def_fill_ratio d = Some (2, 3)%Z /\
+    context_init (objects_of d) (properties_of d) (map (map VBool) (bools_of d)) = Ok (objs, props, c) /\
+    ctx_shape c = (2, 3)%nat /\ ctx_fill_ratio c = Some (2, 3)%Z /\
+    ctx_fill_ratio (transpose c) = Some (2, 3)%Z /\
+    fraction 1 3 = Some (1, 3)%Z /\ fraction 6 4 = Some (3, 2)%Z /\ fraction 0 6 = Some (0, 1)%Z /\ fraction 0 0 = None.
+Proof. exact fill_ratio_witness. Qed.
+Print Assumptions C14_fill_ratio_witness.
